@@ -317,6 +317,108 @@ def text_roundtrip(vc):
 
 
 # ---------------------------------------------------------------------------------------
+# hex body of the text form, UNBOUNDED: write_bf3_format's line loop under a loop contract.
+#   sink contract   every write inside the loop is  HEX(chunk) + "\n"  with 0..40 bytes per chunk (<= 80 columns);
+#                   the sink decodes it at once (unhexlify(hexlify(x)) == x) and appends the chunk to `decoded`
+#   invariant       decoded == rawdata[: min(40 * i, N)]  and all lines written so far are full 40-byte lines or the data
+#                   is exhausted
+#   post            decoded == rawdata   for every length N >= 0          (no byte dropped, none repeated)
+
+def fam_hexlines(seed, tier):
+    import random
+    rnd = random.Random(seed)
+    for n in list(range(0, 130)) + [160, 161, 199, 200, 201, 4000, 4001]:
+        yield dict(N=n, raw=bytes(rnd.randrange(256) for _ in range(n)))
+
+
+class _HexSink:
+    """contract-side text stream: decodes what write_bf3_format writes"""
+    _pyvc_symbolic = True
+
+    def __init__(self, vc, decoded, in_loop=False):
+        self.vc = vc
+        self.decoded = decoded
+        self.head = []
+        self.bad = []
+        self.in_loop = in_loop
+        self.maxcols = 0
+
+    def write(self, s):
+        from pyvc.rope import Rope, K, F
+        if not self.in_loop:
+            self.head.append(s)
+            return
+        r = Rope.of(s)
+        segs = list(r.segs)
+        def txt(b):
+            return b.decode("latin-1") if isinstance(b, bytes) else b
+        if not segs or not isinstance(segs[-1], K) or not txt(segs[-1].b).endswith("\n") or "\n" in txt(segs[-1].b)[:-1]:
+            self.bad.append("line does not end in exactly one newline")
+            return
+        tail = txt(segs[-1].b)[:-1]
+        body = segs[:-1] + ([K(tail)] if tail else [])
+        chunk = Rope([])
+        for sg in body:
+            if isinstance(sg, F) and sg.f == "HEXU":
+                chunk = chunk + sg.args[0]
+            elif isinstance(sg, K) and all(ch in "0123456789ABCDEF" for ch in txt(sg.b)) and len(sg.b) % 2 == 0:
+                chunk = chunk + bytes.fromhex(txt(sg.b))
+            else:
+                self.bad.append("not upper-case hex: %r" % (sg,))
+                return
+        if not self.vc.ctx.valid(core.toint(chunk.length_term()) <= 40):
+            self.bad.append("line longer than 80 columns")
+        self.decoded = self.decoded + chunk
+
+
+@proof("C01/write_bf3_format.hex-lines", functions=[(MOD, "Bf3File.write_bf3_format")], family=fam_hexlines)
+def hex_lines(vc):
+    M = vc.module(MOD)
+    N = vc.int("N", 0, 1 << 24)
+    raw = vc.bytes("raw", N)
+    if not vc.symbolic:
+        import io
+        s = io.StringIO()
+        M.Bf3File.write_bf3_format(s, {}, raw)
+        lines = s.getvalue().split("\n")
+        vc.prove("post.blank-line-then-hex", lines[0] == "" and lines[-1] == "")
+        body = lines[1:-1]
+        vc.prove("post.lines<=80-columns-upper-hex", all(len(l) <= 80 and l == l.upper() for l in body))
+        vc.prove("post.decoded==rawdata", bytes.fromhex("".join(body)) == raw)
+        return
+    from pyvc.rope import Rope
+
+    def upto(i):
+        p = 40 * core.toint(i)
+        return raw[:SInt(z3.If(p < core.toint(N), p, core.toint(N)))]
+
+    def hv_sink(L):
+        s = _HexSink(vc, upto(L.i), in_loop=True)
+        return s
+
+    vc.loop(MOD, "Bf3File.write_bf3_format", 0,
+            havoc=dict(bf3fileobj=hv_sink, rawdata="keep"),
+            inv=lambda L: [("lines-are-upper-hex<=80-columns", not L.bf3fileobj.bad),
+                           ("decoded==rawdata[:min(40*i,N)]", L.bf3fileobj.decoded == upto(L.i))],
+            on_exit=lambda L: setattr(sink0, "final", L.bf3fileobj))
+    sink0 = _HexSink(vc, Rope([]))
+    sink0.final = None
+    orig_write = sink0.write
+
+    out = vc.call(_run_writer, M, sink0, raw)
+    vc.prove("returns", out.returned, repr(out.exc))
+    fin = sink0.final if sink0.final is not None else sink0
+    vc.prove("post.decoded==rawdata", fin.decoded == raw)
+    vc.prove("post.lines<=80-columns-upper-hex", not fin.bad, repr(fin.bad))
+    vc.cover("written")
+
+
+def _run_writer(M, sink, raw):
+    sink.in_loop = False
+    M.Bf3File.write_bf3_format(sink, {}, raw)
+
+
+# ---------------------------------------------------------------------------------------
 # known finding (see /verif/known_findings.json): a component NOT marked for encryption whose description
 # carries ENC (0xC2) = SESSIONKEY (02) is written in clear but read back through the decryptor.
 
